@@ -37,13 +37,37 @@ pub fn generate_slow(prop: &str, seed: u64, tier: &str, out: &mut dyn std::io::W
         let mut r = Rng::for_case(seed, 406, i);
         let nblock = r.range(0, 4) as usize;
         let ms = *r.pick(&[5u64, 20, 60]);
-        let args = vec!["-t".to_string(), nblock.to_string(), "-V".to_string(), ms.to_string()];
+        // in half of the cases the slow thread has signals pending when it is attached to (the process-wide stop is
+        // switched off, so the thread is not stopped yet): each is reported to the dumper before the attach's own stop,
+        // and the thread — which exists throughout — has to be listed all the same
+        let pending = Rng::for_case(seed, 407, i).chance(1, 2);
+        let mut args = vec!["-t".to_string(), nblock.to_string(), "-V".to_string(), ms.to_string()];
+        if pending {
+            args.push("-g".to_string());
+        }
         let t = match Target::spawn(&args) {
             Ok(t) => t,
             Err(_) => continue,
         };
         let mut cfg = DumpCfg::default();
         cfg.blamed = t.threads[0].tid;
+        let mut fail_client = None;
+        if pending {
+            let mut fc = minidump_writer::FailSpotName::testing_client();
+            fc.set_enabled(minidump_writer::FailSpotName::StopProcess, true);
+            fail_client = Some(fc);
+            let pid = t.pid;
+            let slow_tid = t.threads.iter().find(|x| x.slow).map(|x| x.tid).unwrap_or(0);
+            let sigs = [libc::SIGUSR2, libc::SIGTRAP, libc::SIGALRM];
+            let fired = std::sync::Arc::new(std::sync::atomic::AtomicBool::new(false));
+            set_sync(Some(Box::new(move |p, _tid| {
+                if p == "dump_start" && slow_tid != 0 && !fired.swap(true, std::sync::atomic::Ordering::SeqCst) {
+                    for sig in &sigs {
+                        unsafe { libc::syscall(libc::SYS_tgkill, pid, slow_tid, *sig) };
+                    }
+                }
+            })));
+        }
         let stop = std::sync::Arc::new(std::sync::atomic::AtomicBool::new(false));
         let pinger = {
             let stop = stop.clone();
@@ -63,6 +87,12 @@ pub fn generate_slow(prop: &str, seed: u64, tier: &str, out: &mut dyn std::io::W
         let o = dump_case(prop, &format!("s{}-{}", seed, i), &t, &cfg, &mut dest, &format!("eintr=1 vforkms={}", ms));
         stop.store(true, std::sync::atomic::Ordering::SeqCst);
         let _ = pinger.join();
+        if pending {
+            set_sync(None);
+        }
+        if let Some(mut fc) = fail_client {
+            fc.set_enabled(minidump_writer::FailSpotName::StopProcess, false);
+        }
         let (st, tree) = o.image.as_ref().map(|img| crate::c11::soft_error_field(img)).unwrap_or(("absent".into(), "-".into()));
         writeln!(out, "{} soft={} tree={}", o.line, st, tree).unwrap();
     }
